@@ -46,22 +46,31 @@ Frame(k) == << <<"f", k, 1>>, <<"f", k, 2>>, <<"f", k, 3>> >>
 JsonSize(k) == CASE k % 3 = 0 -> 2 [] k % 3 = 1 -> 3 [] OTHER -> 1
 Json(k) == [i \in 1..JsonSize(k) |-> <<"j", k, i>>]
 
-RECURSIVE Rows(_)
-Rows(n) == IF n = 0 THEN <<>> ELSE Rows(n - 1) \o Row(n - 1)
-RECURSIVE Frames(_)
-Frames(n) == IF n = 0 THEN <<>> ELSE Frames(n - 1) \o Frame(n - 1)
+\* rounds in F are rounds whose logger call FAILED (a user-supplied column raised while the row was being assembled):
+\* the exception leaves the observer round, nothing of that round is written, the user carries on with the next run call
+RECURSIVE RowsX(_, _)
+RowsX(n, F) == IF n = 0 THEN <<>> ELSE RowsX(n - 1, F) \o (IF (n - 1) \in F THEN <<>> ELSE Row(n - 1))
+RECURSIVE FramesX(_, _)
+FramesX(n, F) == IF n = 0 THEN <<>> ELSE FramesX(n - 1, F) \o (IF (n - 1) \in F THEN <<>> ELSE Frame(n - 1))
+LastOK(n, F) == IF \E j \in 0..(n - 1) : j \notin F THEN CHOOSE j \in 0..(n - 1) : j \notin F /\ \A i \in 0..(n - 1) : (i \notin F => i <= j) ELSE -1
+\* what a file opened in 'a' mode may already hold (an earlier simulation logged to the same path)
+Old == << <<"o", 0, 1>> >>
 
 (* ---- the process --------------------------------------------------------------- *)
-VARIABLES log, traj, rst, k, pc, crashed
+VARIABLES log, traj, rst, k, pc, crashed, failed, old
 
-vars == <<log, traj, rst, k, pc, crashed>>
+vars == <<log, traj, rst, k, pc, crashed, failed, old>>
+Rows(n) == RowsX(n, failed)
+Frames(n) == FramesX(n, failed)
 
 \* pc: which primitive operation comes next within call k
-Init == /\ log = NewFile(Mode) /\ traj = NewFile(Mode) /\ rst = NewFile(Mode)
-        /\ k = 0 /\ pc = "header" /\ crashed = FALSE
+Init == /\ old \in (IF Mode = "a" THEN {<<>>, Old} ELSE {<<>>})
+        /\ log = [NewFile(Mode) EXCEPT !.disk = old, !.pos = Len(old)]
+        /\ traj = [NewFile(Mode) EXCEPT !.disk = old, !.pos = Len(old)] /\ rst = NewFile(Mode)
+        /\ k = 0 /\ pc = "header" /\ crashed = FALSE /\ failed = {}
 
 Op(name, nxt, l, t, r) == /\ pc = name /\ ~crashed /\ pc' = nxt
-                          /\ log' = l /\ traj' = t /\ rst' = r /\ UNCHANGED <<crashed>>
+                          /\ log' = l /\ traj' = t /\ rst' = r /\ UNCHANGED <<crashed, failed, old>>
 
 WriteHeader  == Op("header", "log_write", FWrite(log, Header), traj, rst) /\ UNCHANGED k
 LogWrite     == Op("log_write", "log_flush", FWrite(log, Row(k)), traj, rst) /\ UNCHANGED k
@@ -73,8 +82,12 @@ TrajFlush    == Op("traj_flush", "rst_seek", log, FFlush(traj), rst) /\ UNCHANGE
 RstSeek      == Op("rst_seek", "rst_trunc", log, traj, FSeek0(rst)) /\ UNCHANGED k
 RstTruncate  == Op("rst_trunc", "rst_write", log, traj, FTruncate(rst)) /\ UNCHANGED k
 RstWrite     == Op("rst_write", "rst_flush", log, traj, FWrite(rst, Json(k))) /\ UNCHANGED k
+\* the row is assembled (every column evaluated) BEFORE the single write: a failing column writes nothing
+LogFail      == /\ pc = "log_write" /\ ~crashed /\ failed = {} /\ k + 1 < NCalls
+                /\ failed' = failed \cup {k} /\ k' = k + 1
+                /\ UNCHANGED <<log, traj, rst, pc, crashed, old>>
 RstFlush     == /\ pc = "rst_flush" /\ ~crashed
-                /\ rst' = FFlush(rst) /\ UNCHANGED <<log, traj, crashed>>
+                /\ rst' = FFlush(rst) /\ UNCHANGED <<log, traj, crashed, failed, old>>
                 /\ k' = k + 1
                 /\ pc' = IF k + 1 < NCalls THEN "log_write" ELSE "end"
 
@@ -84,10 +97,10 @@ Crash == /\ ~crashed /\ pc # "end"
                /\ log' = [log EXCEPT !.disk = l, !.buf = <<>>]
                /\ traj' = [traj EXCEPT !.disk = t, !.buf = <<>>]
                /\ rst' = [rst EXCEPT !.disk = r, !.buf = <<>>]
-         /\ crashed' = TRUE /\ UNCHANGED <<k, pc>>
+         /\ crashed' = TRUE /\ UNCHANGED <<k, pc, failed, old>>
 
 Next == WriteHeader \/ LogWrite \/ LogFlush \/ TrajWrite1 \/ TrajWrite2 \/ TrajWrite3 \/ TrajFlush
-        \/ RstSeek \/ RstTruncate \/ RstWrite \/ RstFlush \/ Crash
+        \/ RstSeek \/ RstTruncate \/ RstWrite \/ RstFlush \/ Crash \/ LogFail
 
 Spec == Init /\ [][Next]_vars
 
@@ -95,19 +108,22 @@ Spec == Init /\ [][Next]_vars
 LogCallsDone  == IF pc \in {"header", "log_write", "log_flush"} THEN k ELSE k + (IF pc = "end" THEN 0 ELSE 1)
 TrajCallsDone == IF pc \in {"header", "log_write", "log_flush", "traj_w1", "traj_w2", "traj_w3", "traj_flush"} THEN k
                  ELSE k + (IF pc = "end" THEN 0 ELSE 1)
-RstCallsDone  == k
+RstCallsDone  == IF LastOK(k, failed) >= 0 THEN 1 ELSE 0      \* has a restart document been completely written?
 
 (* ---- properties --------------------------------------------------------------------- *)
 \* after every completed round of observer calls the records are on disk, nothing is left in a buffer
-Quiet == ~crashed /\ pc \in {"log_write", "end"} /\ k > 0
+Quiet == ~crashed /\ pc \in {"log_write", "end"} /\ k > 0 /\ (k - 1) \notin failed    \* (after a FAILED round only C16_NoTornRow is claimed)
 C16_AfterCall == Quiet =>
-    /\ log.disk = Header \o Rows(k) /\ log.buf = <<>>
-    /\ traj.disk = Frames(k) /\ traj.buf = <<>>
-    /\ rst.disk = Json(k - 1) /\ rst.buf = <<>>          \* exactly one document: the latest, also when it shrank
+    /\ log.disk = old \o Header \o Rows(k) /\ log.buf = <<>>        \* the header also when the file already held something
+    /\ traj.disk = old \o Frames(k) /\ traj.buf = <<>>
+    /\ rst.disk = (IF LastOK(k, failed) < 0 THEN <<>> ELSE Json(LastOK(k, failed))) /\ rst.buf = <<>>   \* exactly one document: the latest, also when it shrank
 \* after a crash: completed rows and frames are intact
-CompletedLog     == IF LogCallsDone = 0 THEN <<>> ELSE Header \o Rows(LogCallsDone)
+CompletedLog     == IF Rows(LogCallsDone) = <<>> THEN old ELSE old \o Header \o Rows(LogCallsDone)   \* (the header reaches the disk with the first row)
 C16_LogIntact    == crashed => IsPrefix(CompletedLog, log.disk)
-C16_FramesIntact == crashed => IsPrefix(Frames(TrajCallsDone), traj.disk)
+C16_FramesIntact == crashed => IsPrefix(old \o Frames(TrajCallsDone), traj.disk)
+\* every record in the log is complete whenever no call is in progress (also after a failed call)
+C16_NoTornRow    == (~crashed /\ pc \in {"log_write", "end"}) => \A i \in 1..Len(log.disk) : log.disk[i][1] = "r" =>
+                        \E j \in 1..Len(log.disk) : log.disk[j] = <<"r", log.disk[i][2], 3 - log.disk[i][3]>>
 \* ... and the restart file, once one has been written, loads to a state that was saved
 C16_RestartLoads == (crashed /\ RstCallsDone > 0) => \E j \in 0..k : rst.disk = Json(j)
 =============================================================================
